@@ -40,15 +40,43 @@ func rip6(rng *rand.Rand) net.IP {
 		return net.IP(randBytes(rng, 16))
 	}
 }
-func rdata(rng *rand.Rand) []byte { return randBytes(rng, pick(rng, 0, 1, 2, 6, 16, rng.Intn(40))) }
+// rdata: the content of a variable-length field. With rdataSize set, every such field of the value being built has
+// that size (the boundary sizes of every variable-length field of every option type are visited that way).
+var rdataSize = -1
+
+func rdata(rng *rand.Rand) []byte {
+	if rdataSize >= 0 {
+		return randBytes(rng, rdataSize)
+	}
+	return randBytes(rng, pick(rng, 0, 1, 2, 6, 16, rng.Intn(40)))
+}
+// rhwtype: hardware types from the IANA registry (Ethernet, IEEE 802, EUI-64, InfiniBand, ...) and beyond it
+func rhwtype(rng *rand.Rand) iana.HWType {
+	return iana.HWType(pick(rng, 1, 1, 6, 27, 27, 32, 0, 37, 65535, rng.Intn(40), rng.Intn(65536)))
+}
+
+// rhwaddr: link-layer addresses of every length a hardware type could have, and shorter
+func rhwaddr(rng *rand.Rand) []byte {
+	if rdataSize >= 0 {
+		return randBytes(rng, rdataSize)
+	}
+	return randBytes(rng, pick(rng, 6, 8, 6, 8, 0, 1, 2, 3, 4, 5, 7, 16, 20, rng.Intn(24)))
+}
+
+var rduidKind = -1 // >= 0: the kind of DUID to build
+
 func rduid(rng *rand.Rand) dhcpv6.DUID {
-	switch rng.Intn(5) {
+	k := rng.Intn(5)
+	if rduidKind >= 0 {
+		k = rduidKind
+	}
+	switch k {
 	case 0:
-		return &dhcpv6.DUIDLLT{HWType: iana.HWType(pick(rng, 1, 6, 0, 65535)), Time: uint32(rng.Int63()), LinkLayerAddr: rdata(rng)}
+		return &dhcpv6.DUIDLLT{HWType: rhwtype(rng), Time: uint32(rng.Int63()), LinkLayerAddr: rhwaddr(rng)}
 	case 1:
 		return &dhcpv6.DUIDEN{EnterpriseNumber: uint32(rng.Int63()), EnterpriseIdentifier: rdata(rng)}
 	case 2:
-		return &dhcpv6.DUIDLL{HWType: iana.HWType(rng.Intn(65536)), LinkLayerAddr: rdata(rng)}
+		return &dhcpv6.DUIDLL{HWType: rhwtype(rng), LinkLayerAddr: rhwaddr(rng)}
 	case 3:
 		d := &dhcpv6.DUIDUUID{}
 		copy(d.UUID[:], randBytes(rng, 16))
@@ -61,6 +89,9 @@ func rlabels(rng *rand.Rand) *rfc1035label.Labels {
 	ns := make([]string, rng.Intn(4))
 	for i := range ns {
 		ns[i] = randName(rng)
+		if rng.Intn(10) == 0 {
+			ns[i] = "" // the root: a name of no labels
+		}
 	}
 	return &rfc1035label.Labels{Labels: ns}
 }
@@ -194,7 +225,7 @@ func randOpt6(rng *rand.Rand, code int, depth int) dhcpv6.Option {
 	case 62:
 		return &dhcpv6.OptNetworkInterfaceID{Typ: dhcpv6.NetworkInterfaceType(rng.Intn(256)), Major: uint8(rng.Intn(256)), Minor: uint8(rng.Intn(256))}
 	case 79:
-		return dhcpv6.OptClientLinkLayerAddress(iana.HWType(rng.Intn(65536)), net.HardwareAddr(rdata(rng)))
+		return dhcpv6.OptClientLinkLayerAddress(rhwtype(rng), net.HardwareAddr(rhwaddr(rng)))
 	case 87:
 		p := randPacket4(rng, rng.Intn(4), []int{0, 1, 4, 255, 256})
 		if p.Options == nil {
@@ -336,6 +367,26 @@ func genC02(o *Out, rng *rand.Rand, tier string) {
 			copy(m.TransactionID[:], randBytes(rng, 3))
 			m.AddOption(randOpt6(rng, c, 2))
 			emit(m, "single-option")
+		}
+	}
+	// every variable-length field of every option type at the sizes where a length check could sit
+	for _, c := range v6Known {
+		for _, sz := range []int{118, 120, 122, 124, 126, 127, 128, 129, 130, 254, 255, 256, 257, 1000} {
+			kinds := []int{-1}
+			if c == 1 || c == 2 {
+				kinds = []int{0, 1, 2, 4} // every kind of DUID with a variable-length part
+			}
+			for _, kind := range kinds {
+				rdataSize, rduidKind = sz, kind
+				m := &dhcpv6.Message{MessageType: dhcpv6.MessageTypeReply}
+				copy(m.TransactionID[:], randBytes(rng, 3))
+				m.AddOption(randOpt6(rng, c, 1))
+				rdataSize, rduidKind = -1, -1
+				if len(m.ToBytes()) < 100 && sz != 126 {
+					continue // this option type has no variable-length field
+				}
+				emit(m, "field-size-boundaries")
+			}
 		}
 	}
 	// values with a history: encoded / printed / decoded first, then edited in place through exported fields
